@@ -1,3 +1,4 @@
+import VProps.TransJson
 import VProps.C01
 #print axioms V.C01.canon_member_order_irrelevant
 #print axioms V.C01.canon_keys_strictly_sorted
@@ -18,3 +19,6 @@ import VProps.C01
 #print axioms V.C01.enforced_rejects
 #print axioms V.C01.enforced_iff
 #print axioms V.C01.canonical_of_rendering
+#print axioms V.Trans.Json.isNegativeZeroLiteral_eq_model
+#print axioms V.Trans.Json.readHexDigits_correct
+#print axioms V.Trans.Json.readHexDigits_total
